@@ -27,6 +27,7 @@ def frames():
     yield "date", DataFrame(g=[1, 1, 2, 3, 3, 3], x=Vector(["2020-01-02", nat, nat, "2021-01-01", "2020-01-01", "2021-01-01"], "datetime64[D]"))
     yield "timedelta", DataFrame(g=[1, 1, 2, 3, 3, 3], x=Vector([1, np.timedelta64("NaT"), np.timedelta64("NaT"), 5, 5, 2], "timedelta64[D]"))
     yield "float_nonan", DataFrame(g=[2, 1, 2, 1], x=Vector([4.0, 3.0, 2.0, 1.0], float))
+    yield "ties", DataFrame(g=[1, 1, 1, 1, 2, 2, 2, 2, 2, 3], x=Vector([1, 2, 2, 1, 3, 1, 2, 2, 1, 7], int))
     yield "empty", DataFrame(g=Vector([], int), x=Vector([], float))
 
 
